@@ -289,7 +289,7 @@ result_t ScanHelper::executeInstructions(BusHandler* busHandler) {
     logError(lf_main, "error executing instructions: %s, last error: %s", getResultCode(result),
         log.str().c_str());
   } else if (m_verbose && log.tellp() > 0) {
-    logInfo(lf_main, log.str().c_str());
+    logInfo(lf_main, "%s", log.str().c_str());
   }
   logNotice(lf_main, "found messages: %d (%d conditional on %d conditions, %d poll, %d update)", m_messages->size(),
       m_messages->sizeConditional(), m_messages->sizeConditions(), m_messages->sizePoll(), m_messages->sizePassive());
